@@ -16,4 +16,4 @@ Separate Extraction
   RefExpand16.render16 EngineDomain16.ref16_rows EngineDomain16.wf16_rows EngineDomain16.in_grammar16 Parse16.names_ok_shipped
   PyRender.py_proc_ref PyRender.py_proc_reads PyRender.py_proc_ok PyRender.py_proc_lines PyRender.py_init_ref
   EngineSM.sml_print SmlRender.sml_text
-  CsRender.cs_block_ref CsRender.cs_block_ok CsRender.cs_block_lines.
+  CsRender.cs_block_ref CsRender.cs_block_ok CsRender.cs_block_lines CsRender.cs_file_ref CsRender.cs_file_wf.
